@@ -148,6 +148,7 @@ def rule_p3(repo, col):
                 continue
             n += 1
             s = norm(v)
+            s0 = norm(node)
             terminated = False
             if isinstance(v, ast.Call) and dotted(v.func) == "Term":
                 last = v.args[-1]
@@ -155,9 +156,15 @@ def rule_p3(repo, col):
                     terminated = True
                 elif isinstance(last, ast.Call) and dotted(last.func) == "Term" and len(last.args) == 1 and isinstance(last.args[0], ast.Constant):
                     terminated = True
+            br = par
+            while br is not None and not isinstance(br, ast.If):
+                br = m.parents().get(br)
+            ctx = norm(br.test) if br is not None else "?"
+            in_else = br is not None and any(node is x or any(node is y for y in ast.walk(x)) for x in br.orelse)
             col.decide("P3", m, node, terminated, "spine ends in a nullary terminator (%s)" % s,
                        "the sequence spine is seeded with %s (the encoding of the last element) instead of a terminator: a trailing nested sequence of the same kind "
-                       "is indistinguishable from the spine, so (1,(2,3)) decodes as (1,2,3)" % s, function="py2pl")
+                       "is indistinguishable from the spine, so (1,(2,3)) decodes as (1,2,3)" % s, function="py2pl",
+                       construct="%s [%s branch of `%s`]" % (s0, "else" if in_else else "then", ctx))
     if n < 2:
         raise AnalysisError("py2pl: sequence seeds not found")
 
